@@ -37,6 +37,8 @@ TSAN_OPTIONS = "halt_on_error=0:second_deadlock_stack=1:report_signal_unsafe=0"
 # extra environment applied to every interpreter process started through Build.env() -- used by C02 to replay other
 # properties' whole workloads under forced-collection schedules
 AMBIENT_ENV = {}
+# variant substitution applied by ensure() -- used by C01 to replay other properties' workloads on the sanitized build
+VARIANT_OVERRIDE = {}
 
 
 class HarnessError(Exception):
@@ -131,6 +133,7 @@ def _rm(path):
 
 def ensure(variant, repo=None, quiet=False):
     repo = repo or REPO
+    variant = VARIANT_OVERRIDE.get(variant, variant)
     if variant not in VARIANTS:
         raise HarnessError("unknown variant " + variant)
     os.makedirs(CACHE, exist_ok=True)
